@@ -308,11 +308,15 @@ class System(ListeningSystem, SendingSystem):
         if len(commands) != cmds_number:
             raise ValueError('Malformed message.')
 
+        methods = []
         for command in commands:
             method = self._get_method(command)
             if not method:
                 raise ValueError('Command has invalid parameters.')
+            methods.append(method)
 
+        # Start the commands only when the whole message has been accepted
+        for command, method in zip(commands, methods):
             t = Thread(target=method, args=(command, self.stop))
             t.daemon = True
             t.start()
@@ -328,6 +332,6 @@ class System(ListeningSystem, SendingSystem):
         command_method = None
         if subsystem_name:
             subsystem = getattr(self, subsystem_name)
-            command_method = getattr(subsystem, command_name)
+            command_method = getattr(subsystem, command_name, None)
 
         return command_method
